@@ -3,6 +3,7 @@ package value
 import (
 	"fmt"
 	"iter"
+	"math"
 	"strings"
 	"unicode"
 	"unicode/utf8"
@@ -306,6 +307,14 @@ func (s String) RepeatSmallInt(other SmallInt) (String, Value) {
 		return "", Ref(Errorf(
 			OutOfRangeErrorClass,
 			"repeat count cannot be negative: %s",
+			other.Inspect(),
+		))
+	}
+	if len(s) > 0 && int(other) > math.MaxInt/len(s) {
+		// strings.Repeat panics when the length of the result overflows int
+		return "", Ref(Errorf(
+			OutOfRangeErrorClass,
+			"repeat count is too large %s",
 			other.Inspect(),
 		))
 	}
